@@ -314,7 +314,7 @@ NewOrderRec(s, q) ==
      bspd |-> FALSE, inbl |-> FALSE, live |-> FALSE, trade |-> q.t, sel |-> q.sel,
      mid |-> q.mid, strat |-> q.strat, rck |-> q.rck, created |-> s.clock, placed |-> -1,
      supd |-> s.clock, red |-> 0, newp |-> 0, nlog |-> 0, mver |-> -1,
-     selk |-> q.selk, client |-> q.client, bseq |-> -1]
+     selk |-> q.selk, client |-> q.client, bseq |-> -1, lad |-> q.lad]
 
 EnsureOrder(s, q) ==
     LET s1 == IF Has(s.trd, q.t) THEN s
